@@ -68,6 +68,25 @@ CHECKS = {
                 "theorem only. 'Latest request wins' is how the statement is read for repeated bans of one address. No axioms.",
         "technique": "Coq proof over a history model of the ban list + wire-level history correspondence on the real server",
     },
+    "C10": {
+        "text": "Model FS/Folder.v on the namespace world: filepath.Walk order (pre-order, byte order of names), items = entries whose own "
+                "name has no leading dot (also below dot-folders), CalcItemCount, the download exchange per item (header, client's "
+                "send / resume k / skip, size prefix, payload, data) and the upload exchange per item (folder create, skip complete, "
+                "resume partial at its length, receive + publish; a connection that dies inside a file). Theorems (Props/C10.v): "
+                "count_matches_headers, headers_are_the_items (paths relative to the folder, kinds, in order), "
+                "items_are_visible_entries_partial, action_respected (the size prefix counts exactly the bytes that follow; a resumed "
+                "file continues at the offset), upload_skips_complete, upload_resumes_partial + resumed_prefix_gives_whole_file, "
+                "upload_writes_new_file, upload_creates_folder, cut_never_publishes; a computed upload->download round trip. "
+                "Correspondence: a reference folder-transfer client against the real handleFileTransfer over net.Pipe on generated trees "
+                "(nesting, empty folders, dot-files, dot-folders with visible children, sizes 0-3000): downloads with per-file choices "
+                "(first file resumed at a random offset, second skipped, rest random), uploads into a target holding a complete and a "
+                "partial file, uploads cut inside a (resumed or fresh) file, and the round trip; every header, prefix, data fork and "
+                "the resulting tree are compared with the model.",
+        "note": "Two defects found and repaired (b15acf8 resumed file sent from byte 0 in folder downloads; a0eef30 partially received "
+                "resumed file published in folder uploads). PARTIAL: exactly-once / depth-first order of the walk is shown by the "
+                "correspondence and the computed example, not by a theorem. ASCII names, no aliases, no stored forks. No axioms.",
+        "technique": "Coq proof over an item-by-item folder transfer model + reference-client differential correspondence on the real transfer handlers",
+    },
     "C11": {
         "text": "Model FS/Namespace.v: the tree below the file root as a map from component lists to files / info forks / folders / "
                 "aliases, and the handlers on it: listing (ignore patterns, trailing .incomplete cut, folder item counts, size = data + "
